@@ -20,30 +20,30 @@ CHECK = {
     ],
     "min_evals": 140,
     "min_counters": {
-        "isgr.scripts_x_directions": 75,
-        "isgr.replication_runs": 300,
-        "isgr.replication_runs_oneshot": 150,
-        "isgr.replication_runs_continuous": 50,
-        "isgr.local_writes": 450,
-        "isgr.local_delete": 40,
+        "isgr.scripts_x_directions": 18,
+        "isgr.replication_runs": 118,
+        "isgr.replication_runs_oneshot": 87,
+        "isgr.replication_runs_continuous": 30,
+        "isgr.local_writes": 156,
+        "isgr.local_delete": 23,
         "isgr.local_resurrect": 5,
-        "isgr.documents_compared": 300,
-        "isgr.cases_caught_up": 60,
-        "isgr.cases_converged": 55,
-        "isgr.idle_reruns_checked": 90,
-        "isgr.conflicts_resolved": 40,
-        "isgr.midflight_stops_with_parked_revision": 5,
+        "isgr.documents_compared": 93,
+        "isgr.cases_caught_up": 18,
+        "isgr.cases_converged": 17,
+        "isgr.idle_reruns_checked": 31,
+        "isgr.conflicts_resolved": 30,
+        "isgr.midflight_stops_with_parked_revision": 3,
         "isgr.mid_window_local_writes": 2,
-        "blip.cases_V3": 40,
-        "blip.cases_V4": 40,
-        "blip.client_pushes": 200,
-        "blip.client_pulls": 200,
-        "blip.client_writes": 200,
-        "blip.documents_compared": 200,
-        "blip.cases_converged": 65,
-        "blip.idle_reruns_checked": 65,
+        "blip.cases_V3": 10,
+        "blip.cases_V4": 10,
+        "blip.client_pushes": 83,
+        "blip.client_pulls": 82,
+        "blip.client_writes": 85,
+        "blip.documents_compared": 60,
+        "blip.cases_converged": 20,
+        "blip.idle_reruns_checked": 20,
         "blip.server_documents_pushed_by_client": 100,
-        "blip.server_documents_pulled_by_client": 100,
+        "blip.server_documents_pulled_by_client": 63,
     },
     "race_files": ["db/active_replicator.go", "db/active_replicator_common.go", "db/active_replicator_push.go", "db/active_replicator_pull.go",
                    "db/active_replicator_checkpointer.go", "db/blip_handler.go", "db/blip_sync_context.go", "db/sg_replicate_cfg.go"],
